@@ -569,6 +569,8 @@ def parse_instr(p, line):
             ops.append((t, p.value(t)))
             if not p.accept(','):
                 break
+            if p.peek()[0] == 'meta':
+                break
         I.update(srcty=st, ops=ops)
     elif op in ('call', 'invoke'):
         p.skip_attrs()
@@ -721,6 +723,36 @@ def parse_module(text):
             m.funcs[f.name] = f
             i = j
         i += 1
+    # function aliases (C1 -> C2 constructors etc.): rewrite references to the aliasee
+    amap = {}
+    for n, g in m.globals.items():
+        a = g.get('alias')
+        if a is not None:
+            t = a
+            while t[0] == 'cast':
+                t = t[2][1]
+            if t[0] == 'global' and t[1] in m.funcs:
+                amap[n] = t[1]
+    if amap:
+        def rw(v):
+            if isinstance(v, tuple):
+                if len(v) == 2 and v[0] == 'global' and v[1] in amap:
+                    return ('global', amap[v[1]])
+                return tuple(rw(x) for x in v)
+            if isinstance(v, list):
+                return [rw(x) for x in v]
+            return v
+        for f in m.funcs.values():
+            for b in f.blocks.values():
+                for I in b:
+                    for k in list(I.keys()):
+                        if isinstance(I[k], (tuple, list)):
+                            I[k] = rw(I[k])
+        for g in m.globals.values():
+            if g['init'] is not None:
+                g['init'] = rw(g['init'])
+        for n in amap:
+            del m.globals[n]
     return m
 
 
@@ -848,6 +880,7 @@ class Emitter:
         self.untranslated = {}
         self.emitted_funcs = []
         self.emitted_globals = []
+        self.extern_globals = []
 
     # ---- names
     def sname(self, t):
@@ -1311,7 +1344,9 @@ class Emitter:
             self.used_types.append(t)
             cn = self.gname(n)
             if g['init'] is None:
-                gdecl.append('extern %s;' % self.decl(t, cn))
+                # external object (std::cout, stdout, ...): a zero-initialised stand-in of the IR type; nothing in scope reads its contents
+                gdecl.append('%s;' % self.decl(t, cn))
+                self.extern_globals.append(n)
             else:
                 gdecl.append('extern %s;' % self.decl(t, cn))
                 try:
@@ -1794,7 +1829,7 @@ def main():
     open(a.o, 'w').write(c)
     meta = dict(functions=e.emitted_funcs, globals=e.emitted_globals,
                 externals=sorted(n for n in e.externs_used if n not in m.funcs or n in e.untranslated or n in rep),
-                untranslated=e.untranslated, replaced=rep,
+                untranslated=e.untranslated, replaced=rep, extern_globals=e.extern_globals,
                 resumable=getattr(e, 'resumable_info', {}))
     if a.meta:
         json.dump(meta, open(a.meta, 'w'), indent=1)
